@@ -367,4 +367,13 @@ impl<DP: DependencyProvider> State<DP> {
         // Now the user can refer to the entire tree from its root.
         Arc::into_inner(precomputed.remove(&incompat).unwrap()).unwrap()
     }
+
+    /// The derivation tree of an incompatibility of the store, for the verification hooks.
+    #[cfg(pubgrub_verif)]
+    pub(crate) fn verif_build_derivation_tree(
+        &self,
+        incompat: IncompDpId<DP>,
+    ) -> DerivationTree<DP::P, DP::VS, DP::M> {
+        self.build_derivation_tree(incompat)
+    }
 }
